@@ -56,6 +56,9 @@ Step(e) ==
     \/ e.ev = "stats_merge" /\ AStatsMerge(e)
     \/ e.ev = "def_bm"      /\ ADefBm(e)
     \/ e.ev = "digest"      /\ ADigest(e)
+    \/ e.ev = "same_obs"    /\ ASameObs(e)
+    \/ e.ev = "layout"      /\ ALayout(e)
+    \/ e.ev = "forget"      /\ AForget(e)
     \/ e.ev = "reset"       /\ AReset
     \/ e.ev = "skip"        /\ obs' = NoObs /\ Frame
 
@@ -76,6 +79,8 @@ TraceSpec == TraceInit /\ [][TraceNext]_trVars
 
 \* the whole trace was explained (no line without an enabled action)
 TraceAccepted == TLCGet("stats").diameter >= Len(Trace) - FirstEvent + 2
+
+TraceView == l      \* a trace is a line: its position identifies the state (saves fingerprinting the tables)
 
 TraceAlias == [l |-> l, obs |-> obs]
 
